@@ -31,6 +31,8 @@ RULE = ('case = (party configuration (m,t,PRSS), type (l,f) in {(8,4),(16,8),(32
         'uniform} and the operations neg/pos/add/sub/mul/square/int and float factors (all trailing-zero counts)/lshift/'
         'comparisons/if_else/if_swap/sum/in_prod/prod/all/vector_add/vector_sub/scalar_mul/schur_prod/list if_else/'
         'if_swap/matrix_prod (plain, transposed, A*A^T)/pow/abs/min/max/sgn/input of mixed lists/convert from secint), '
+        'plus a product-tree sweep: mpc.prod over lists of every length 1..10 with ALL 2^n integrality patterns for n<=6 '
+        '(thorough n<=7, three configurations) and sampled patterns for n<=10, non-dyadic fractions, and mpc.all for n<=10; '
         'each also run with all input flags forced False); evaluations = executed instructions; distinct = distinct '
         '(type, operation, argument values, flags); non-trivial = at least one flagged and one unflagged argument or '
         'a truncation')
@@ -78,12 +80,14 @@ DIRECTED = [
 
 def run(ctx):
     cfgs = list(L.CFGS_QUICK) + (list(L.CFGS_MORE) if ctx.thorough else [(5, 2, False)])
-    jobs = jobs_for(ctx, ctx.scale(14, 90), cfgs[:3], ctx.scale(4, 6))
+    jobs = jobs_for(ctx, ctx.scale(9, 90), cfgs[:3], ctx.scale(4, 6))
     jobs += jobs_for(ctx, ctx.scale(3, 40), cfgs[3:], ctx.scale(4, 6), tag='q')
     for di, prog in enumerate(DIRECTED):
-        for cfg in cfgs[:3]:
-            for lf in L.TYPES:
-                jobs.append((f'd:{di}:{cfg}:{lf}', cfg, lf, ctx.seed, {'prog': prog}))
+        for ci, cfg in enumerate(cfgs[:3]):
+            for li, lf in enumerate(L.TYPES):
+                if ctx.thorough or (ci + li + di) % 2 == 0:
+                    jobs.append((f'd:{di}:{cfg}:{lf}', cfg, lf, ctx.seed, {'prog': prog}))
+    jobs += L.prod_sweep_jobs(ctx, 'c03')
     results = L.explore(ctx, jobs)
     items = []
     for r in results:
